@@ -165,6 +165,11 @@ func conflictProgram(k1, k2, pl, tk, order int) *ir.Program {
 		switch pl {
 		case plSame, plOtherPkg:
 			inj.Items = []*ir.Item{ir.SetRef(x), ir.SetRef(x)}
+			if tk == tkNamed && order == 0 && pl == plSame {
+				// reached once by its own name and once through a variable that merely aliases it
+				alias := &ir.Set{Pkg: root, Name: "AliasOfX", Items: []*ir.Item{ir.SetRef(x)}, AliasOf: x}
+				inj.Items = []*ir.Item{ir.SetRef(x), ir.SetRef(alias)}
+			}
 		case plNestedVsDirect:
 			inj.Items = []*ir.Item{ir.SetRef(&ir.Set{Pkg: root, Name: "SetOuter", Items: []*ir.Item{ir.SetRef(x)}}), ir.SetRef(x)}
 		case plSiblings:
@@ -317,6 +322,33 @@ func checkC05(c *h.Check) {
 			pairs[fmt.Sprintf("%s+%s", srcNames[a], srcNames[bb])] = true
 		}
 	})
+	// one wire.FieldsOf call listing two (or three) fields of identical type; and the same set passed twice by name
+	for variant := 0; variant < 4; variant++ {
+		b := ir.NewBuilder()
+		p := b.Root
+		str := b.Leaf(p, "Str")
+		port := b.Leaf(p, "Port")
+		cfgT := b.Agg(p, "Config", &ir.Field{Name: "Host", T: str}, &ir.Field{Name: "Name", T: str}, &ir.Field{Name: "Port", T: port})
+		names := [][]string{{"Host", "Name", "Port"}, {"Name", "Host"}, {"Port", "Host", "Name"}, {"Host", "Port", "Name"}}[variant]
+		r := b.Leaf(p, "R")
+		ptr := variant%2 == 1
+		var parent *ir.Type = cfgT
+		if ptr {
+			parent = ir.Ptr(cfgT)
+		}
+		inj := &ir.Injector{Name: "Init", Out: r, Items: []*ir.Item{
+			ir.FuncItem(&ir.Func{Pkg: p, Name: "PConfig", Out: parent}),
+			ir.FieldsOfItem(cfgT, ptr, names...),
+			ir.FuncItem(&ir.Func{Pkg: p, Name: "PR", Params: []*ir.Type{str, port}, Out: r}),
+		}}
+		prog := &ir.Program{Root: p, Injectors: []*ir.Injector{inj}}
+		cs := caseFromProgram(fmt.Sprintf("C05/same-fieldsof-call/variant=%d", variant), prog, false, nil)
+		reasons := []ir.Reason{{Class: "conflict", Subject: str.Key()}}
+		cs.Judge = func(r *h.Result) []h.Violation { return judgeVerdict(r, reasons) }
+		if c.NoteProgram(cs.Files) {
+			cases = append(cases, cs)
+		}
+	}
 	results := c.JudgeAll(cases)
 	rej := 0
 	for _, r := range results {
@@ -332,7 +364,7 @@ func checkC05(c *h.Check) {
 	c.Coverage["programs_rejected"] = rej
 	c.Coverage["unordered_kind_pairs_covered"] = len(pairs)
 	c.Coverage["explorer"] = map[string]interface{}{"executions": st.Executions, "skipped": st.Skipped, "mode": "full product"}
-	c.Coverage["rule"] = "ordered pairs over 10 source kinds (func, struct value, struct pointer, value, interface value, binding, field, pointer-to-field, injector parameter, same set twice) x 6 placements x 5 contested type kinds (named, pointer, alias vs. original, []T written twice, interface) x 2 argument orders; inexpressible combinations skipped by the renderer. Every program must be rejected with a 'multiple bindings' diagnostic naming the contested type and must not produce output. Distinct = distinct rendered source."
+	c.Coverage["rule"] = "ordered pairs over 10 source kinds (func, struct value, struct pointer, value, interface value, binding, field, pointer-to-field, injector parameter, same set twice) x 6 placements x 5 contested type kinds (named, pointer, alias vs. original, []T written twice, interface) x 2 argument orders; inexpressible combinations skipped by the renderer; plus one set reached by its own name and through an aliasing variable, and one wire.FieldsOf call listing several fields of identical type. Every program must be rejected with a 'multiple bindings' diagnostic naming the contested type and must not produce output. Distinct = distinct rendered source."
 	if len(cases) > 0 {
 		i := len(cases) / 3
 		c.Samples = append(c.Samples, map[string]interface{}{"case": cases[i].ID, "wire.go": cases[i].Files["wire.go"], "diagnostics": results[i].Root().Diags})
